@@ -1069,7 +1069,7 @@ pub fn run(c: &mut Ctx) {
     });
     c.note(
         "rule",
-        json!("basic: for N in {1,2,3,5,8,13} x {CommitmentProof<G1>, CommitmentProof<G2>, SignatureProof, SignatureRequestProof} x message variants (every entry 0 / 1 / q-1 / small / random, then rotating mixtures) x every subset of slots with caller-chosen commitment scalars (0, q-1, random) for N<=5 and sampled subsets for N=8,13: builder challenge == proof challenge, proof verifies, r_i == c*m_i + cs_i on every slot. patterns: partial opening, equality, public addition, public product, secret sum inside one proof and across 2-3 proofs of every ordered type pair, across proofs of different lengths, four proofs sharing all scalars, and a four-proof chain with a range constraint under one challenge; shared / public values from the five classes. range: values {0,1,128^k-1,128^k (k=1..8),2^63-1,random} linked to a slot of every proof type. Distinct = distinct (family, types, N, value classes, subset mask or slot)."),
+        json!("basic: for N in {1,2,3,5,8,13} x {CommitmentProof<G1>, CommitmentProof<G2>, SignatureProof, SignatureRequestProof} x message variants (every entry 0 / 1 / q-1 / small / random, then rotating mixtures) x every subset of slots with caller-chosen commitment scalars (0, q-1, random) for N<=5 and sampled subsets for N=8,13: builder challenge == proof challenge, proof verifies, r_i == c*m_i + cs_i on every slot. patterns: partial opening, equality, public addition, public product, secret sum inside one proof and across 2-3 proofs of every ordered type pair, across proofs of different lengths, four proofs sharing all scalars, and a four-proof chain with a range constraint under one challenge; shared / public values from the five classes. range: values {0,1,128^k-1,128^k (k=1..8),2^63-1,random} linked to a slot of every proof type. Distinct = distinct (family, types, N, value classes, subset mask or slot). Added later: word-sized values, new() versus default constructors. Every honest proof verified twice and after a trip through its wire form; signature proofs under scripted zero draws."),
     );
     let m = match fixtures::merchant(c.seed, "m0") {
         Ok(m) => m,
